@@ -77,12 +77,20 @@ def run_jobs(names, tier="quick", timeout=420):
         for n in names:
             cmd += ["--harness", n]
         env = dict(os.environ, CARGO_NET_OFFLINE="true", CARGO_TARGET_DIR=os.path.join(base, "target"))
+        # own process group, so that a timeout also kills the cbmc / goto-* grandchildren
+        import signal
+        proc = subprocess.Popen(cmd, cwd=d, env=env, stdout=subprocess.PIPE, stderr=subprocess.STDOUT, start_new_session=True)
         try:
-            p = subprocess.run(cmd, cwd=d, env=env, stdout=subprocess.PIPE, stderr=subprocess.STDOUT, timeout=timeout)
-            out = p.stdout.decode("utf-8", "replace")
-            rc = p.returncode
-        except subprocess.TimeoutExpired as e:
-            out = (e.stdout or b"").decode("utf-8", "replace")
+            o, _ = proc.communicate(timeout=timeout)
+            out = o.decode("utf-8", "replace")
+            rc = proc.returncode
+        except subprocess.TimeoutExpired:
+            try:
+                os.killpg(proc.pid, signal.SIGKILL)
+            except OSError:
+                pass
+            o, _ = proc.communicate()
+            out = (o or b"").decode("utf-8", "replace")
             rc = None
         wall = time.time() - t0
         # per-harness verdicts
